@@ -13,6 +13,6 @@ for cfg, defs in (("malloc", []), ("heap", ["USE_MEMORY_ALLOCATION_FREE=0", "HEA
             JOBS.append(_j("c%d.%s" % (cap, s), cfg, defs + ['OPS="%s"' % s], cap,
                 "operation sequence %s on a queue of capacity %d vs reference FIFO: codes, texts, counts, QMA bit%s" % (s, cap, "; allocator model with failing malloc, double-free/use-after-free/leak checks" if cfg == "malloc" else "; 8-byte static heap with canaries, full reuse after drain"),
                 "one fixed operation sequence (P/L push with 1/5-character text, N push without, O pop via SYST:ERR?, C clear), capacity %d, then drain" % cap,
-                tier=("quick" if (cap == 3 or s in ("PPPO", "PNPOO")) else "thorough") if cfg == "heap" else ("quick" if (cap == 2 and s in ("PPPO", "PNPOO", "LPOLO")) else "thorough"),
-                mem_gb=12 if cfg == "heap" else 30, timeout=1800 if cfg == "heap" else 3000))
+                tier=("quick" if (cap == 3 or s in ("PPPO", "PNPOO")) else "thorough") if cfg == "heap" else ("quick" if (cap == 2 and s in ("PPPO", "PNPOO")) else "thorough"),
+                mem_gb=12 if cfg == "heap" else (30 if s in ("PPPO", "PNPOO") else 44), timeout=1800 if cfg == "heap" else 3000))
     JOBS.append(_j("sym4", cfg, defs + ["NOPS=4"], 2, "any 4 operations from {P, L, N, O, C} on capacity 2 vs reference FIFO", "4 symbolically chosen operations, capacity 2, then drain", tier="thorough", timeout=3000, mem_gb=24))
